@@ -38,6 +38,9 @@ KINDS = {
     "byte2":   (".byte 1, {V}", 2, False, ["V"]),
     "word":    (".word {X}", 2, True, ["X"]),
     "wlist":   ("7, {X}", 4, True, ["X"]),
+    "word0":   (".word", 2, True, []),
+    "byte0":   (".byte", 1, False, []),
+    "dword0":  (".dword", 4, True, []),
     "ascii":   (".ascii \"abc\"", 3, False, []),
     "asciz":   (".asciz \"ab\"", 3, False, []),
     "blkb":    (".blkb {NSYM}", "N", False, ["N"]),
